@@ -172,7 +172,17 @@ fn judge(c: &Case, refr: &RTrace, a: &ATrace) -> Result<(), Fail> {
         fail!("no-progress", "{}\n {}", e, ctx());
     }
     let want = strip(&refr.evs, c.use_stream);
-    let got = strip(&a.evs, c.use_stream);
+    let mut got = strip(&a.evs, c.use_stream);
+    // the harness asks next() twice more after the end (not the stream adapter, which must not be polled then): it ends once
+    if !c.use_stream {
+        let first_none = got.iter().position(|e| matches!(e, Ev::None));
+        if let Some(k) = first_none {
+            if let Some(bad) = got[k + 1..].iter().find(|e| !matches!(e, Ev::None)) {
+                fail!("not-ended-once", "after next() had returned None, a further call returned {}\n {}", bad.short(), ctx());
+            }
+            got.truncate(k + 1);
+        }
+    }
     if want != got {
         let k = want.iter().zip(got.iter()).take_while(|(x, y)| x == y).count();
         fail!("differs-from-blocking", "event {}: blocking iterator gives {} but the async {} gives {}\n {}", k, want.get(k).map(|e| e.short()).unwrap_or("<end>".into()), if c.use_stream { "stream" } else { "iterator" }, got.get(k).map(|e| e.short()).unwrap_or("<end>".into()), ctx());
